@@ -102,7 +102,7 @@ Theorem C19_scan_fails_only_if : forall d orc ps, wf_layersdir d = true ->
   (find_layer_users d orc ps = SErr ->
     (exists e, orc 0%nat RTopOpen = Some e) \/ (exists e, orc 0%nat RTopReaddir = Some e)
     \/ (exists j e, orc j RLstat = Some e /\ e <> ENOENT)
-    \/ (exists j e, orc j RExe = Some e /\ e <> ENOENT /\ e <> EACCES)).
+    \/ (exists j e, orc j RExe = Some e /\ e <> ENOENT /\ e <> EACCES /\ e <> ESRCH)).
 Proof. exact scan_fails_only_if. Qed.
 Print Assumptions C19_scan_fails_only_if.
 
